@@ -34,7 +34,23 @@ Two further dimensions:
   SurfaceConnectionVertices / SurfaceConnectionFaces): the documented defaults are pinned in DOC_SIGNATURES; every option omitted
   in turn and all omitted together must give what the documented default passed explicitly gives (C18.defaults.omitted), every
   positional prefix in the documented order what the same values give by keyword (C18.defaults.positional), and the table is
-  compared with inspect.signature (C18.defaults.signature); input class = the option.
+  compared with inspect.signature (C18.defaults.signature); input class = the option;
+* the connection on planar domains whose border angles are commensurable with the order (mc/c18_lib.py COMM_SETS: rectangles / L with
+  and without mid-side vertices on the square lattice, hexagons / rhombus / trapezoid / triangle with mid-side vertices on the
+  triangular lattice, a hexagon with 72 / 144 degree angles; all triangulations): where the exact predicate says that the library
+  snaps no chart (border angle = positive multiple of 2*pi/order; face-based field: always) the connection of the planar domain is
+  flat, so the Laplacian built with it is the scalar one up to the gauge of the local bases (C18.flat_domain.laplacian, also on every
+  other planar input of the driver) and the field is the one computed with the library's flat connection, measured against the mesh's
+  own edges (C18.flat_domain.field);
+* observer calls on ONE computed field object (export_as_mesh in both forms, flag_singularities, normalize, a second run, plain reads):
+  every word over that menu up to the depth of the tier is applied between run() and the final flag_singularities(); no call may
+  change the variables, the local bases or the parallel transport (C18.observer.state_unchanged), the indices flagged afterwards are
+  those of a field that was only run (C18.observer.singularities_unchanged), every clause as C18.observer.<clause>;
+* worker objects with a history handed to the entry point: a FeatureEdgeDetector that was run on another surface first (same
+  connectivity folded elsewhere / another closed surface / a larger surface), used by a field on that surface, run twice, or shared
+  with a field of the other element kind on the same mesh object, then passed as custom_features (alone or with a connection built
+  from it as custom_connection): every clause (C18.reuse.<clause>) and the same feature edges / constraints / directions as with a
+  detector created for the mesh and run once (C18.reuse.features / .constraints / .field).
 """
 from __future__ import annotations
 import cmath, itertools, math, os
@@ -44,7 +60,9 @@ ID = "C18"
 TECHNIQUE = ("bounded-exhaustive sweep (all triangulations of small point sets and lattice polygons x all configurations within 2 "
              "deviations x all relabelings x all length-2 field histories on one mesh object x the duplicate-attribute configuration switch x unit of length 2^-48 / 2^48 x unsorted vertex rings with every face / vertex in position 0) of the real frame-field solvers vs an "
              "independently assembled dense connection-Laplacian oracle; exhaustive argument forms (omitted / keyword / positional prefix) of the "
-             "public entry points vs the pinned table of documented defaults")
+             "public entry points vs the pinned table of documented defaults; connection built by the field vs flat connection on all triangulations of planar polygons with "
+             "border angles commensurable with the order (exact lattice predicate); all words of observer calls up to depth 2 / 3 on one field object; "
+             "all histories of a re-used FeatureEdgeDetector handed over as custom_features")
 RULE = ("inputs: every triangulation TRI(P) of the listed planar point sets (paraboloid lift z=(x^2+y^2)/16, and unlifted with "
         "the library's flat connection), lifted 3x3 / 3x4 grids, tetrahedron, octahedron, icosahedron, 3x3 and 3x4 tori; every "
         "triangulation of the listed planar lattice polygons (exact 45/90/135 degree border corners; default and flat connection); "
@@ -52,12 +70,12 @@ RULE = ("inputs: every triangulation TRI(P) of the listed planar point sets (par
         "smooth_normals within the deviation bound of the tier; relabelings and face-listing deviations (start rotations, "
         "swaps of adjacent faces) as listed in the bounds; histories: ordered pairs (A, B) of configurations (element x order x "
         "n_smooth {0,3}, A != B), A built/run/flagged then B built/run/flagged on the same mesh object, all clauses after each; on meshes where the features switch is not inert (an interior edge with normals' dot < 0.5) also the 48 pairs differing in features only; every history once more under config.display_duplicate_attribute_warning=True (clauses C18.history.dupflag.*); deviation dimensions on the meshes listed in the bounds, configurations = order 1-6 x n_smooth {0,3} with the default switches and cad_correction off + every single-switch deviation for the orders 3, 4 + the flat connection on the planar version: each run at unit scale (reference), with all coordinates x 2^-48 and x 2^48 (class ':unit=2^e': all clauses + C18.unit.*: same features, constraints, directions as the reference) and with config.sort_neighborhoods=False (class ':sort=False': all clauses + C18.sort.*: same features and edge-relative directions as with sorted rings; smoothing off, orders 1 and 4: every rotation of the face list and every vertex transposition (0 k), clauses C18.sort.face_in_position_0 / vertex_in_position_0); a case = one distinct (labelled and listed mesh, configuration) "
-        "execution of the real solver; non-trivial = the mesh has constrained elements or is closed (always true here); argument forms: for each entry point of DOC_SIGNATURES and each base assignment of the other options (DOC_BASES), each option omitted in turn, all omitted, all positional; every positional prefix of the value vectors DOC_VECTORS / DOC_OTHER; a form is non-trivial for an option when its other value changes the result on the input (asserted per option by finish)")
+        "execution of the real solver; non-trivial = the mesh has constrained elements or is closed (always true here); argument forms: for each entry point of DOC_SIGNATURES and each base assignment of the other options (DOC_BASES), each option omitted in turn, all omitted, all positional; every positional prefix of the value vectors DOC_VECTORS / DOC_OTHER; a form is non-trivial for an option when its other value changes the result on the input (asserted per option by finish); planar commensurable domains: every triangulation (flip graph from an ear-clipping start, exact orientation predicates in lattice coordinates) of the 10 polygons of COMM_SETS, z = 0; configurations order 1-6 x n_smooth {0,3} x cotangent / uniform weights (x smooth_normals on / off for vertices), each run with the connection the field builds and with the flat connection; C18.flat_domain.field is asserted where the exact predicate holds at every border vertex (faces: always), C18.flat_domain.laplacian per pair of elements whose charts are not snapped, on these and on every other planar execution of the driver (lattice polygons: Gaussian-integer predicate); observer calls: for each mesh of the bound x element x order 1-6 x n_smooth {0,3}: every word over the menu OBSERVERS (vertices 6, faces 5 calls) of length <= depth (deeper for the orders 3 / 4 with smoothing off), applied to a fresh field object between run() and the final flag_singularities(); re-used detectors: for each target mesh B x element x configuration (order 1-6, n_smooth 0; + n_smooth 3 for the orders 3, 4; thorough: both in full) x what is handed over (custom_features alone / with custom_connection built from it): the reference (detector created for B, run once) and the 8 histories of _reuse_histories over the 3 other surfaces (B's connectivity folded along another line, the tetrahedron, a folded 6x5 grid with more edges than B), detector options only_border=False, corner_order = the order (vertices) / 4 (faces), compute_feature_graph as in the bound")
 ASSUMPTIONS = [
     "inputs are oriented manifold triangle complexes in general position (exact integer predicate), <= 12 vertices (icosahedron/torus) ",
     "the set of feature edges (FrameField.feat) and the local bases / edge angles of FrameField.conn are taken as given by the library (subjects of C15 / of the connection); the Laplacian, the fixed/free partition, chi, cotangents are recomputed independently",
     "singularity index normalisation as implemented and documented for crosses: index = angle/(pi/2), so the quantum of an order-n field is 4/n and the indices sum to 4*chi",
-    "excluded and counted: systems with cond(L_II) > 1e8 or |cot a + cot b| < 1e-6, free elements whose exact harmonic value has modulus < 1e-6 (direction undefined), constrained vertices left at 0 because their constraints cancel: >=3 incident constrained edges, or <=2 in the unguarded initialisation (odd order or smooth_normals off) when the chart angles of the edges are opposite (exact Gaussian-integer predicate on planar lattice inputs with the flat connection, |sum exp(i*order*angle)| < 1e-6 on the connection's own angles otherwise, taken from the library only under cad_correction which rewrites those angles); in the guarded initialisation (smooth_normals, even order) a vertex with <=2 constrained edges is never excluded; dihedral angles within 1e-6 of the feature threshold",
+    "excluded and counted: systems with cond(L_II) > 1e8 or |cot a + cot b| < 1e-6 (harmonic and invariance clauses; beyond cond 1e12, for a free block whose smallest singular value is below 1e-8 x the largest entry of the operator (singular without being ill-conditioned: all its entries are 1e-16) and for the degenerate weights also the modulus of the free elements: the system is numerically singular, e.g. exactly cancelling negative cotangent weights of a non-Delaunay triangulation of a lattice polygon), free elements whose exact harmonic value has modulus < 1e-6 (direction undefined), constrained vertices left at 0 because their constraints cancel: >=3 incident constrained edges, or <=2 in the unguarded initialisation (odd order or smooth_normals off) when the chart angles of the edges are opposite (exact Gaussian-integer predicate on planar lattice inputs with the flat connection, |sum exp(i*order*angle)| < 1e-6 on the connection's own angles otherwise, taken from the library only under cad_correction which rewrites those angles); in the guarded initialisation (smooth_normals, even order) a vertex with <=2 constrained edges is never excluded; dihedral angles within 1e-6 of the feature threshold",
     "eigen-solver start vector (closed surfaces) and ARPACK are seeded from VERIF_SEED (np.random.seed before each execution; scipy.sparse.linalg.eigsh, which scipy >= 1.15 seeds from OS entropy, is rebound to a version seeded from VERIF_SEED during each execution and restored in a finally); only seed-independent clauses are asserted there (unit modulus, index quantum and sum)",
     "excluded and counted (excluded_singular_smoothing_system): closed input without constrained element, n_smooth > 0, and a singular connection Laplacian (smallest eigenvalue of the independently assembled operator < 1e-9 x the largest: the order-n connection is trivial, e.g. order 4 on the octahedron's vertices, even orders on the tetrahedron's faces): the library's smoothing matrix lap - alpha*A is then exactly singular for the exact attach weight and whether the solver returns a unit field or NaN is a matter of round-off (reported as a finding, not asserted)",
     "relabeling / face-start invariance is asserted with smoothing switched off and cad_correction off (OSQP's 1e-3 tolerance is not round-off)",
@@ -68,10 +86,13 @@ ASSUMPTIONS = [
     "the comparisons between listings under sort=False (face / vertex in position 0) are not asserted where the constraint itself depends on the listing: the two classes of the known findings (a face with two constrained edges; crease vertices with the geometric initialisation), border corners whose two edge contributions are exactly opposite (one of the two edges is kept: which one follows the edge numbering), and inputs without constrained element (eigenvector with a seeded random start); they are counted (dev_not_asserted:*), every per-execution clause still applies to them",
     "documented defaults (table DOC_SIGNATURES, copied from the signatures and the 'Defaults to' lines of the unchanged tree; where prose and signature disagree - tol of inverse_power_method - the signature is the reference): an omitted option means its documented default and a positional option means the same as by keyword; the two calls of a comparison are made on fresh meshes built from the same lists with the same seeds, fields compared to 1e-7 (measured run-to-run noise 4e-16, OSQP 1.x does not adapt rho by wall-clock); a signature that differs from the table is reported as a violation of C18.defaults.signature; undocumented keyword defaults of the internal classes (FrameField2DFaces / FrameField2DVertices **kwargs) are not asserted",
     "lattice polygons: integer coordinates, no three points collinear (exact), all triangulations by flips from an ear-clipping start; corner turning angles and the 'exactly opposite contributions' relation order*turning = 180 mod 360 are decided in integer arithmetic",
+    "planar domains: 'reduces to the scalar Laplacian for a flat connection' is read as a statement about every flat connection, not only about the classes FlatConnectionVertices / FlatConnectionFaces: the connection of a planar domain (every z exactly 0) is flat wherever the library does not deliberately snap a chart; the vertex connection snaps the chart of a border (feature) vertex to the nearest positive multiple of 2*pi/order (FeatureEdgeDetector.corners, documented: 'corners of angle defect 2pi/corner_order'), so the clauses are asserted only at border vertices whose angle IS such a multiple, decided exactly (Gaussian integers on the square lattice, Eisenstein integers on the triangular lattice, direction indices of the 36-degree turtle polygon; the coordinates of the triangular lattice and of the turtle polygon carry round-off of 1e-16, which cannot move round() or the 1e-6 tolerance) - elsewhere the outcome is only recorded (finish demands that it differs somewhere); for the orders 1 and 2 no simple polygon has only such angles, so the field clause of the vertex-based field covers the orders 3-6 (the Laplacian clause also order 2, at mid-side vertices); measured on the unchanged tree: agreement to 1e-13 for both elements, smoothing on and off; the collinear border points of the specimens with mid-side vertices make some triangulations unreachable by flips through degenerate quadrilaterals: the family is 'reachable from the ear-clipping start', counts pinned in PINNED_COMM",
+    "observer calls: export_as_mesh ('Exports the frame field ... for visualization'), flag_singularities ('Detects singularities'), __getitem__ and the accessors of the connection are read-only by their documentation, run() on a field that has been run and normalize() on a normalised field are no-ops up to one unit in the last place; state = variables, all local bases, all parallel-transport angles, compared to 1e-12 around every call; the index comparison with the field that was only run is made only where the state is bitwise unchanged (normalize() may move a value by an ulp, which flips the branch matching at exact ties, e.g. the regular tetrahedron); a call that raises is recorded as an outcome, not reported (the statement does not speak about exports)",
+    "re-used detectors: FeatureEdgeDetector is documented as a worker whose object 'can be given as a parameter in ... frame field algorithms' and run()/detect() 'Runs the detection on a provided mesh': its result describes the mesh of the LAST run; custom_features / custom_connection are documented arguments of SurfaceFrameField; the reference is a detector with the same options created for the mesh and run once (for the form with custom_connection: the connection built from it in the same way), compared through feature edges (vertex pairs), constraints (same local bases: fresh meshes from the same lists) and edge-relative directions; the features switch is left on (the documentation says the custom features are ignored when it is off, the code uses them: not asserted either way)",
 ]
 BOUNDS = {
-    "quick": "TRI(P) for the 7 point sets with <=6 vertices (30 triangulations), lifted grids 3x3 and 3x4, 5 closed meshes; per mesh: order 1-6 x element x n_smooth {0,1,3} in full with the switches within <=1 deviation (144 configurations) + 24 flat-connection configurations on the planar version; relabelings (n_smooth=0, cad off): all n! for n<=4 (24 cfgs), all 5! on one pentagon triangulation and every transposition on the other 5-vertex meshes (12 cfgs); face-listing deviations <=2 on n<=4, <=1 on n=5 (24 cfgs); lattice polygons trap, trap+1, rect+1, rtri+1, para+1, ell (17 triangulations): the same sweep with the inert features switch left on (108 + 24 flat configurations); histories: 216 ordered pairs (same element: order or n_smooth differs; other element: all order pairs, n_smooth 0) on each of 14 meshes (TRI of the <=5-point sets with interior vertices, grid 3x3, tetrahedron, octahedron, torus 3x3, TRI(trap+1), TRI(rtri+1)) + the 48 features-only pairs (element x order x n_smooth {0,3}, on->off and off->on) on the 3 of them with sharp interior edges; all history tasks a second time with display_duplicate_attribute_warning=True; deviation dimensions (unit 2^-48, unit 2^48, sort_neighborhoods=False): 31 meshes (first and last triangulation of each of the 7 point sets and 6 lattice polygons, both grids, the 5 closed meshes) x element; per mesh 28 vertex / 20 face configurations (24 / 16 on lattice polygons) + 4 flat-connection ones per element, each run 4 times (reference, 2 units, unsorted rings); every face in position 0 and every vertex in position 0 under unsorted rings for the orders 1 and 4, smoothing off; argument forms: 11 entry points (31 options) on a 5x4 grid folded along a sharp ridge and the icosahedron (operators and connections also on the octahedron), inverse_power_method also on a 4x4 diagonal matrix with eigenvalue ratio 1.02 (documented maxiter binding): ~800 calls",
-    "thorough": "TRI(P) for all 13 point sets up to 8 vertices (387 triangulations), grids, closed meshes; switches within <=2 deviations for n<=6, grids and closed meshes (270 + 48 flat configurations per mesh), <=1 for n=7 (144+24), order x element x n_smooth only for n=8 (36+24); relabelings: all n! for n<=5 (42 cfgs n<=4, 24 cfgs n=5), all 6! on one triangulation of each 6-point set (12 cfgs), every transposition on the other 6-vertex meshes (24 cfgs), on every 3rd 7-vertex and every 8th 8-vertex mesh (12 cfgs) and on the 3x3 grid (24 cfgs); face-listing deviations <=2 for n<=5, <=1 for n=6 and every 6th mesh with n>=7 (24 cfgs); lattice polygons: all 11 sets (91 triangulations), switches within <=2 deviations for n<=6, <=1 for n=7; histories: all 552 ordered pairs of element x order x n_smooth {0,3} on each of 94 meshes (TRI of the <=6-point sets with interior vertices, grid 3x3, 5 closed meshes, TRI of the 7 lattice sets with an interior point) + the 48 features-only pairs on those with sharp interior edges; all history tasks a second time with display_duplicate_attribute_warning=True; deviation dimensions: every triangulation of the point sets with <= 6 points and every 4th of the larger ones, all triangulations of the 11 lattice polygons, grids, closed meshes; single-switch deviations and the flat connection for all orders 1-6; same units (2^-48, 2^48) and position-0 listings as quick; argument forms: as quick + the lifted 3x4 grid and the 3x3 torus",
+    "quick": "TRI(P) for the 7 point sets with <=6 vertices (30 triangulations), lifted grids 3x3 and 3x4, 5 closed meshes; per mesh: order 1-6 x element x n_smooth {0,1,3} in full with the switches within <=1 deviation (144 configurations) + 24 flat-connection configurations on the planar version; relabelings (n_smooth=0, cad off): all n! for n<=4 (24 cfgs), all 5! on one pentagon triangulation and every transposition on the other 5-vertex meshes (12 cfgs); face-listing deviations <=2 on n<=4, <=1 on n=5 (24 cfgs); lattice polygons trap, trap+1, rect+1, rtri+1, para+1, ell (17 triangulations): the same sweep with the inert features switch left on (108 + 24 flat configurations); histories: 216 ordered pairs (same element: order or n_smooth differs; other element: all order pairs, n_smooth 0) on each of 14 meshes (TRI of the <=5-point sets with interior vertices, grid 3x3, tetrahedron, octahedron, torus 3x3, TRI(trap+1), TRI(rtri+1)) + the 48 features-only pairs (element x order x n_smooth {0,3}, on->off and off->on) on the 3 of them with sharp interior edges; all history tasks a second time with display_duplicate_attribute_warning=True; deviation dimensions (unit 2^-48, unit 2^48, sort_neighborhoods=False): 31 meshes (first and last triangulation of each of the 7 point sets and 6 lattice polygons, both grids, the 5 closed meshes) x element; per mesh 28 vertex / 20 face configurations (24 / 16 on lattice polygons) + 4 flat-connection ones per element, each run 4 times (reference, 2 units, unsorted rings); every face in position 0 and every vertex in position 0 under unsorted rings for the orders 1 and 4, smoothing off; argument forms: 11 entry points (31 options) on a 5x4 grid folded along a sharp ridge and the icosahedron (operators and connections also on the octahedron), inverse_power_method also on a 4x4 diagonal matrix with eigenvalue ratio 1.02 (documented maxiter binding): ~800 calls; planar commensurable domains: first and last triangulation of each of the 10 polygons (20 meshes) x element x 48 (vertices) / 24 (faces) configurations x 2 connections; observer calls: 5 meshes (lifted 3x3 grid, first triangulation of q4+1, tetrahedron, 3x3 torus, first triangulation of the lattice trapezoid) x element x 12 configurations x every word of length 1 (length <= 2 for the orders 3, 4 with smoothing off): 254 sequences per mesh; re-used detectors: 3 target meshes (lifted 3x3 grid, 5x4 grid folded along a sharp ridge, first triangulation of p5+1) x element x 8 configurations x 2 forms x (reference + 8 histories), compute_feature_graph=True",
+    "thorough": "TRI(P) for all 13 point sets up to 8 vertices (387 triangulations), grids, closed meshes; switches within <=2 deviations for n<=6, grids and closed meshes (270 + 48 flat configurations per mesh), <=1 for n=7 (144+24), order x element x n_smooth only for n=8 (36+24); relabelings: all n! for n<=5 (42 cfgs n<=4, 24 cfgs n=5), all 6! on one triangulation of each 6-point set (12 cfgs), every transposition on the other 6-vertex meshes (24 cfgs), on every 3rd 7-vertex and every 8th 8-vertex mesh (12 cfgs) and on the 3x3 grid (24 cfgs); face-listing deviations <=2 for n<=5, <=1 for n=6 and every 6th mesh with n>=7 (24 cfgs); lattice polygons: all 11 sets (91 triangulations), switches within <=2 deviations for n<=6, <=1 for n=7; histories: all 552 ordered pairs of element x order x n_smooth {0,3} on each of 94 meshes (TRI of the <=6-point sets with interior vertices, grid 3x3, 5 closed meshes, TRI of the 7 lattice sets with an interior point) + the 48 features-only pairs on those with sharp interior edges; all history tasks a second time with display_duplicate_attribute_warning=True; deviation dimensions: every triangulation of the point sets with <= 6 points and every 4th of the larger ones, all triangulations of the 11 lattice polygons, grids, closed meshes; single-switch deviations and the flat connection for all orders 1-6; same units (2^-48, 2^48) and position-0 listings as quick; argument forms: as quick + the lifted 3x4 grid and the 3x3 torus; planar commensurable domains: all 189 triangulations of the 10 polygons; observer calls: 13 meshes (+ lifted 3x4 grid, octahedron, icosahedron, 3x4 torus, the other triangulations of q4+1, first of p5+1, first of the lattice right triangle), every word of length <= 2 (<= 3 for the orders 3, 4 with smoothing off); re-used detectors: 5 target meshes (+ lifted 3x4 grid, first triangulation of q4+2) x 12 configurations x compute_feature_graph on / off",
 }
 
 SEED = int(os.environ.get("VERIF_SEED", "0") or 0)
@@ -316,6 +337,46 @@ def tasks(tier):
         for el in ("vertices", "faces"):
             out.append({"kind": "deviation", "mesh": name, "pts": p, "faces": f, "el": el, "planar": planar, "inert": inert,
                         "exps": UNIT_EXPS, "full": not quick})
+    # ---- planar commensurable domains: connection built by the field vs flat connection (quick: first and last triangulation)
+    for s_ in sorted(PINNED_COMM):
+        P, tris = _comm_family(s_)
+        members = [(i, tri) for i, tri in enumerate(tris)]
+        for i, tri in ends(members):
+            for el in ("vertices", "faces"):
+                out.append({"kind": "flatdomain", "mesh": "%s#%d" % (s_, i), "comm": s_, "pts": [list(q) for q in P], "faces": tri, "el": el})
+    # ---- observer calls between run() and the final flag_singularities() on one field object
+    obs = []
+    p, f = _grid(3, 3)
+    obs.append(("grid3x3", p, f))
+    obs += [(name, L.lift(P), tri) for name, n, P, tri in (fam["q4+1"] if not quick else fam["q4+1"][:1])]
+    obs += [(name, p, f) for name, p, f in _closed() if not quick or name in ("tetrahedron", "torus3x3")]
+    obs += [(name, L.flat(P), tri) for name, n, P, tri in lat["trap+1"][:1]]
+    if not quick:
+        p, f = _grid(3, 4)
+        obs.append(("grid3x4", p, f))
+        obs += [(name, L.lift(P), tri) for name, n, P, tri in fam["p5+1"][:1]]
+        obs += [(name, L.flat(P), tri) for name, n, P, tri in lat["rtri+1"][:1]]
+    for name, p, f in obs:
+        for el in ("vertices", "faces"):
+            for orders in ([list(range(1, 7))] if quick else [[o] for o in range(1, 7)]):
+                out.append({"kind": "observers", "mesh": name, "pts": p, "faces": f, "el": el, "orders": orders,
+                            "depth": 1 if quick else 2, "deep": 2 if quick else 3})
+    # ---- re-used FeatureEdgeDetector objects handed to the field as custom_features (alone / with a connection built from them)
+    from mc import families as F
+    big = F.grid(6, 5, "tri")
+    big = ("grid6x5:folded", _fold([list(map(float, q)) + [0.0] * (3 - len(q)) for q in big[0]]), [list(t) for t in big[1]])
+    tet = [(name, p, f) for name, p, f in _closed() if name == "tetrahedron"][0]
+    targets = [("grid3x3", ) + _grid(3, 3), [m for m in _dflt_meshes("quick") if m[0] == "ridge5x4"][0]]
+    targets += [(name, L.lift(P), tri) for name, n, P, tri in fam["p5+1"][:1]]
+    if not quick:
+        targets.append(("grid3x4", ) + _grid(3, 4))
+        targets += [(name, L.lift(P), tri) for name, n, P, tri in fam["q4+2"][:1]]
+    for name, p, f in targets:
+        others = [[name + ":folded", _fold(p), f], list(tet), list(big)]
+        for el in ("vertices", "faces"):
+            for graph in ((True,) if quick else (True, False)):
+                out.append({"kind": "reuse", "mesh": name, "pts": [list(q) for q in p], "faces": f, "el": el, "others": others,
+                            "graph": graph, "full": not quick})
     # ---- relabelings: (perms, level of the configuration set)
     CH = 40
     for s in sets:
@@ -381,17 +442,67 @@ def _callee(cfg):
 
 
 class Run:
-    __slots__ = ("ok", "exc", "msg", "stage", "f", "mesh", "var0", "var", "faces", "singuls", "sing_exc")
+    __slots__ = ("ok", "exc", "msg", "stage", "f", "mesh", "var0", "var", "faces", "singuls", "sing_exc", "observed")
 
 
-def _execute(M, pts, faces, cfg, want_sing, mesh=None):
+# ---- observer calls: public methods of a computed field object that only read it (documented as exports / queries) or that
+# are documented no-ops on a field that has been run; applied between run() and the final flag_singularities()
+OBSERVERS = ["export", "export_rv", "flag", "normalize", "run", "read"]
+OBSERVER_CALLEE = {"export": "export_as_mesh", "export_rv": "export_as_mesh(repr_vector=True)", "flag": "flag_singularities",
+                   "normalize": "normalize", "run": "run (second call)", "read": "__getitem__ / conn.base / conn.transport"}
+
+
+def _observer_menu(el):
+    return [o for o in OBSERVERS if not (o == "export_rv" and el != "vertices")]
+
+
+def _observer_sequences(el, depth):
+    """every sequence of observer calls of length 1 ... depth"""
+    menu = _observer_menu(el)
+    return [list(s) for k in range(1, depth + 1) for s in itertools.product(menu, repeat=k)]
+
+
+def _field_state(f, mesh, el):
+    """everything later queries of a computed field read: the variables, the local bases and the parallel transport"""
+    import numpy as np
+    n = len(mesh.vertices) if el == "vertices" else len(mesh.faces)
+    bases = np.array([[[float(c) for c in v] for v in f.conn.base(i)] for i in range(n)])
+    if el == "vertices":
+        pairs = sorted((int(a), int(b)) for e in mesh.edges for a, b in (tuple(e), tuple(e)[::-1]))
+    else:
+        nb = {}
+        for t, fc in enumerate(mesh.faces):
+            for i in range(3):
+                nb.setdefault(tuple(sorted((int(fc[i]), int(fc[(i + 1) % 3])))), []).append(t)
+        pairs = sorted(p for ts in nb.values() if len(ts) == 2 for p in (tuple(ts), tuple(ts[::-1])))
+    return {"variables": np.array(f.var, dtype=complex).copy(), "local_bases": bases,
+            "parallel_transport": np.array([float(f.conn.transport(a, b)) for a, b in pairs])}
+
+
+def _apply_observer(f, mesh, el, name):
+    if name == "export":
+        return call(f.export_as_mesh)
+    if name == "export_rv":
+        return call(f.export_as_mesh, repr_vector=True)
+    if name == "flag":
+        return call(f.flag_singularities)
+    if name == "normalize":
+        return call(f.normalize)
+    if name == "run":
+        return call(f.run)
+    n = len(mesh.vertices) if el == "vertices" else len(mesh.faces)
+    return call(lambda: ([complex(f[i]) for i in range(n)], [f.conn.base(i) for i in range(n)]))
+
+
+def _execute(M, pts, faces, cfg, want_sing, mesh=None, extra=None, observers=None):
     """Fresh mesh (or the given mesh object, already used by earlier fields) -> SurfaceFrameField -> initialize
-    (constraints captured) -> run -> flag_singularities."""
+    (constraints captured) -> run -> [observer calls, the state of the field recorded around each] -> flag_singularities.
+    `extra`: further keyword arguments (custom_features / custom_connection objects built by the caller on `mesh`)."""
     import numpy as np
     from mc import families as F
     from mouette import framefield as ff
     r = Run()
-    r.ok, r.exc, r.msg, r.stage, r.singuls, r.sing_exc = False, None, "", "build", None, None
+    r.ok, r.exc, r.msg, r.stage, r.singuls, r.sing_exc, r.observed = False, None, "", "build", None, None, None
     if mesh is None:
         mesh = F.build_surface(pts, faces)
     r.mesh = mesh
@@ -401,6 +512,8 @@ def _execute(M, pts, faces, cfg, want_sing, mesh=None):
     if cfg["flat"]:
         Conn = M.processing.FlatConnectionVertices if cfg["el"] == "vertices" else M.processing.FlatConnectionFaces
         kw["custom_connection"] = Conn(mesh)
+    if extra:
+        kw.update(extra)
     np.random.seed(SEED)
     r.stage = "construct"
     # seam: scipy >= 1.15 draws ARPACK's start vector from np.random.default_rng(None) (OS entropy) unless told otherwise: the
@@ -430,6 +543,26 @@ def _execute(M, pts, faces, cfg, want_sing, mesh=None):
         r.exc, r.msg = o.exc, o.msg
         return r
     r.ok = True
+    if observers:
+        # the state of the field before the first and after every observer call: the first call that changes it is named
+        r.observed = {"sequence": list(observers), "culprit": None, "raised": [], "bitwise_unchanged": True}
+        before = _field_state(r.f, mesh, cfg["el"])
+        for k, name in enumerate(observers):
+            oo = call(_apply_observer, r.f, mesh, cfg["el"], name)
+            oo = oo.value if oo.ok else oo
+            if not oo.ok:
+                r.observed["raised"].append([k, name, oo.exc, oo.msg[:200]])
+            after = _field_state(r.f, mesh, cfg["el"])
+            for key in before:
+                a, b = before[key], after[key]
+                if a.shape != b.shape or not np.array_equal(a, b):
+                    r.observed["bitwise_unchanged"] = False      # normalize() may move a value by one unit in the last place
+                if r.observed["culprit"] is None and (a.shape != b.shape or not np.allclose(a, b, rtol=0.0, atol=1e-12, equal_nan=True)):
+                    i = int(np.argmax(np.abs(np.nan_to_num(a - b)).reshape(len(a), -1).max(axis=1))) if a.shape == b.shape else -1
+                    r.observed["culprit"] = {"position": k, "call": name, "changed": key, "element": i,
+                                             "before": np.ravel(a[i]).tolist() if i >= 0 else None,
+                                             "after": np.ravel(b[i]).tolist() if i >= 0 else None}
+            before = after
     r.var = np.array(r.f.var, dtype=complex).copy()
     if want_sing and cfg["el"] == "faces":
         o = call(r.f.flag_singularities)
@@ -466,7 +599,8 @@ def _chart_invariants(geo, transport, order, back):
     return out
 
 
-def _check(rep: Report, M, name, pts, faces, cfg, want_sing=True, relabel_tag=None, mesh=None, hist=None, ref=None, ref_back=None, want_chart=False):
+def _check(rep: Report, M, name, pts, faces, cfg, want_sing=True, relabel_tag=None, mesh=None, hist=None, ref=None, ref_back=None, want_chart=False,
+           extra=None, observers=None, comm=None):
     """One execution of the real code + every clause of the statement that applies. Returns a dict used by the
     invariance clauses (None if the run failed): {'inv': key->complex, 'skip': reason or None}.
     `mesh`: run on this mesh object instead of a fresh one; `hist` = {'before': [configurations already run and flagged
@@ -476,10 +610,15 @@ def _check(rep: Report, M, name, pts, faces, cfg, want_sing=True, relabel_tag=No
     rings, `ref_back`: new label -> label in `ref`.  Root-cause gate of the vertex-based field: if the charts of the library's
     vertex connection (gauge-free: _chart_invariants) are not those found under sorted rings, exactly that is reported
     (C18.sort.vertex_connection) and the other clauses, whose expectations are all phrased relative to those charts, are not
-    evaluated on this execution (result {'gated': True})."""
+    evaluated on this execution (result {'gated': True}).
+    `extra`: custom_features / custom_connection objects handed to the entry point; `observers`: sequence of observer calls made
+    between run() and the final flag_singularities() - root-cause gate: if one of them changes the state of the field (variables,
+    local bases, parallel transport) exactly that is reported (C18.observer.state_unchanged, callee = that call) and the other
+    clauses are not evaluated on this execution; `comm`: name of the commensurable polygon (mc/c18_lib.py COMM_SETS) the input is
+    a triangulation of, unrelabelled (exact border-angle predicate of the planar-domain clause)."""
     import numpy as np
     from mc import c18_lib as L
-    r = _execute(M, pts, faces, cfg, want_sing, mesh)
+    r = _execute(M, pts, faces, cfg, want_sing, mesh, extra=extra, observers=observers)
     rep.traces += 1
     rep.transitions += 3
     geo = L.Geo(pts, r.faces)
@@ -492,12 +631,17 @@ def _check(rep: Report, M, name, pts, faces, cfg, want_sing=True, relabel_tag=No
         rep.flag("dev%s:%s:%s" % (DEV["cls"], cfg["el"], "closed" if geo.closed else "bordered"))
     if relabel_tag is not None:
         ctx["relabel"] = relabel_tag
-    if hist:
+    if hist and hist["before"]:
         ctx["run_and_flagged_on_the_same_mesh_object_before"] = hist["before"]
+    if observers:
+        ctx["calls_between_run_and_the_final_flag_singularities"] = list(observers)
+    if extra:
+        ctx["handed_to_SurfaceFrameField"] = sorted(extra)
 
     def viol(sub, callee_, kind, icls_, detail):
         rep.violation((hist.get("sub", "C18.history.") + sub[len("C18."):]) if hist else sub, callee_, kind, icls_, detail)
-    rep.case((name, relabel_tag, sorted(cfg.items()), [sorted(c.items()) for c in hist["before"]] if hist else None) + ((DEV["cls"],) if DEV["cls"] else ()))
+    rep.case((name, relabel_tag, sorted(cfg.items()), [sorted(c.items()) for c in hist["before"]] if hist else None) + ((DEV["cls"],) if DEV["cls"] else ())
+             + ((list(observers),) if observers else ()) + (((sorted(extra), hist["cls"] if hist else ""),) if extra else ()))
     rep.states += 1
     rep.flag("closed" if geo.closed else "bordered")
     rep.flag("el:" + cfg["el"])
@@ -515,6 +659,23 @@ def _check(rep: Report, M, name, pts, faces, cfg, want_sing=True, relabel_tag=No
     if nel != (geo.n if el == "vertices" else len(geo.F)):
         viol("C18.unit_modulus", callee + ".var", "mismatch:size", icls, dict(ctx, got=nel))
         return None
+    if r.observed is not None:
+        rep.evaluations += len(r.observed["sequence"])
+        for o in r.observed["sequence"]:
+            rep.flag("observer:%s:%s" % (o, el))
+        rep.outcome("observer_calls", "state_unchanged" if r.observed["culprit"] is None else "state_changed")
+        for k, o, exc, msg in r.observed["raised"]:
+            rep.outcome("observer_raises", "%s:%s" % (o, exc))
+            rep.count("observer_call_raised")
+        observed_bitwise = r.observed["bitwise_unchanged"]
+        if r.observed["culprit"] is not None:
+            c = r.observed["culprit"]
+            rep.violation("C18.observer.state_unchanged", "FrameField2D%s.%s" % (el.capitalize(), OBSERVER_CALLEE[c["call"]]),
+                          "side_effect:" + c["changed"], "%s:%s" % (el, "closed" if geo.closed else "bordered") + DEV["cls"],
+                          dict(ctx, calls_after_run=r.observed["sequence"], first_call_that_changed_the_field=c))
+            return {"gated": True}
+    else:
+        observed_bitwise = None
     chart = None
     if el == "vertices" and not cfg["flat"] and (ref is not None or want_chart):
         chart = _chart_invariants(geo, f.conn.transport, order, ref_back if ref_back is not None else list(range(geo.n)))
@@ -579,6 +740,67 @@ def _check(rep: Report, M, name, pts, faces, cfg, want_sing=True, relabel_tag=No
                      dict(ctx, element=i, X=X, Y=Y, defect=d))
                 break
 
+    # ---- clause: "reduces to the scalar Laplacian for a flat connection", on the connection the field built itself.  The input is
+    # planar (every z exactly 0): the face connection is flat; the vertex connection is flat wherever the library does not snap a
+    # chart: at interior vertices (angle sum 2*pi) and at border vertices whose angle is a positive multiple of 2*pi/order (EXACT
+    # predicate: Gaussian / Eisenstein integer arithmetic or direction indices; elsewhere the chart is deliberately rescaled to the
+    # nearest multiple and nothing is asserted).  Flat = trivial up to the gauge of the local bases: with g_a the angle of the X
+    # vector of element a in the plane, L_conn[a,b] * exp(-i*order*(g_b - g_a)) = L_scalar[a,b] for every pair of such elements.
+    planar_flat = None      # None: clause not applicable; else True iff every constrained chart is unsnapped (field clause applies)
+    if (not geo.closed and not cfg["flat"] and not cfg["cad"] and bool(np.all(geo.P[:, 2] == 0.0))
+            and all(np.cross(X, Y)[2] > 0.5 for X, Y in bases)):
+        if el == "faces":
+            unsn = set(range(nel))
+        else:
+            nxt_ = {a: b for (a, b) in geo.he if (b, a) not in geo.he}
+            prv_ = {b: a for a, b in nxt_.items()}
+            unsn = set(range(geo.n)) - set(geo.border_vertices)
+            ip_ = L.integer_planar([[c / DEV["scale"] for c in p] for p in pts] if DEV["scale"] != 1.0 else pts)
+            for v in sorted(geo.border_vertices):
+                if v not in nxt_ or v not in prv_ or len(nxt_) != len(geo.border_vertices):
+                    continue
+                if comm is not None and relabel_tag is None:
+                    nbp = len(L.COMM_SETS[comm][1])
+                    okv = v < nbp and nxt_[v] == (v + 1) % nbp and L.comm_border_angle_is_multiple(comm, v, order)
+                elif ip_ is not None:
+                    okv = L.gaussian_border_angle_is_multiple(ip_, prv_[v], v, nxt_[v], order)
+                else:
+                    okv = False
+                if okv:
+                    unsn.add(v)
+                    rep.flag("flat_domain:unsnapped_border_vertex:order%d" % order)
+        planar_flat = (el == "faces") or set(geo.border_vertices) <= unsn
+        fnl = M.operators.laplacian if el == "vertices" else M.operators.laplacian_triangles
+        o1 = call(fnl, r.mesh, cotan=cfg["cot"], connection=f.conn, order=order)
+        o2 = call(fnl, r.mesh, cotan=cfg["cot"])
+        if o1.ok and o2.ok:
+            A = np.asarray(o1.value.todense(), dtype=complex)
+            B = np.asarray(o2.value.todense(), dtype=complex)
+            gx = [math.atan2(float(X[1]), float(X[0])) for X, Y in bases]
+            tolL = 1e-6 * max(1.0, float(abs(B).max()))
+            badL, nL = None, 0
+            for a in range(nel):
+                for b in range(nel):
+                    if a == b or (A[a, b] == 0 and B[a, b] == 0) or a not in unsn or b not in unsn:
+                        continue
+                    nL += 1
+                    e = abs(A[a, b] * cmath.exp(-1j * order * (gx[b] - gx[a])) - B[a, b])
+                    if not e < tolL and (badL is None or e > badL[2]):
+                        badL = (a, b, e)
+            rep.evaluations += nL
+            if nL:
+                rep.flag("flat_domain:laplacian:" + el)
+                if el == "vertices" and any(v in unsn for v in geo.border_vertices):
+                    rep.flag("flat_domain:laplacian:border_charts:order%d" % order)
+                rep.outcome("flat_domain_laplacian", "scalar_up_to_gauge" if badL is None else "differs")
+            if badL is not None:
+                a, b, e = badL
+                viol("C18.flat_domain.laplacian", _lap_name(cfg), "mismatch:not_scalar_up_to_gauge", icls,
+                     dict(ctx, elements=[a, b], entry_with_the_connection=complex(A[a, b]), scalar_entry=complex(B[a, b]),
+                          angle_of_X_in_the_plane=[gx[a], gx[b]], error=e,
+                          chart_angle_of_the_edge_at_both_ends=([float(f.conn.transport(a, b)), float(f.conn.transport(b, a))] if el == "vertices" else None),
+                          note="planar input; both elements have charts the library does not snap (interior vertex, or border vertex whose angle is an exact multiple of 2*pi/order)"))
+
     # ---- excluded (exact predicate on the independently assembled operator): closed input, nothing constrained, smoothing on,
     # and a connection Laplacian that is singular (the order-n connection is trivial: a parallel field exists).  Its spectrum is
     # then that of the scalar Laplacian, so the attach weight (first non-zero eigenvalue of the scalar problem) makes the matrix
@@ -609,6 +831,12 @@ def _check(rep: Report, M, name, pts, faces, cfg, want_sing=True, relabel_tag=No
             if cfg["ns"] == 0:
                 rep.count("filtered_ill_conditioned")
             skip_inv = "ill-conditioned"
+            if x is None:
+                # numerically singular system (cond > 1e12, e.g. negative cotangent weights of a non-Delaunay triangulation that
+                # cancel exactly) or an interior edge with |cot a + cot b| < 1e-6: the free values, their modulus included (a
+                # value of exactly 0 is left alone by the normalisation), are decided by round-off
+                zero_free.update(free)
+                rep.count("excluded_singular_harmonic_system")
         else:
             oracle = x if cfg["ns"] == 0 else None
             for k, i in enumerate(free):
@@ -841,7 +1069,7 @@ def _check(rep: Report, M, name, pts, faces, cfg, want_sing=True, relabel_tag=No
     if not tag:
         rep.flag("invariance_unambiguous:" + el)
     return {"inv": inv, "skip": skip_inv, "icls": icls + tag, "singuls": r.singuls, "tag": tag, "nfixed": len(fixed), "ambiguous": ambiguous,
-            "chart": chart, "gated": False,
+            "chart": chart, "gated": False, "planar_flat": planar_flat, "observed_bitwise": observed_bitwise,
             "feat": sorted(lib_feat), "var0": var0, "mesh": r.mesh}
 
 
@@ -1068,7 +1296,7 @@ class _dev:
         return False
 
 
-def _same(rep, base, got, cfg, sub, ctx, cls, same_bases):
+def _same(rep, base, got, cfg, sub, ctx, cls, same_bases, feat_icls=None):
     """Clauses of a deviation that must not change the result: `got` (run under the deviation `cls`) against `base` (same
     input and configuration, unit scale, sorted rings).  sub.features: the same feature edges (combinatorial result);
     sub.constraints (same_bases: a change of unit leaves the local bases alone): the same constraint on every constrained
@@ -1083,7 +1311,7 @@ def _same(rep, base, got, cfg, sub, ctx, cls, same_bases):
         return
     rep.evaluations += 1
     if base["feat"] != got["feat"]:
-        rep.violation(sub + ".features", "FeatureEdgeDetector.feature_edges", "mismatch:feature_edges", icls,
+        rep.violation(sub + ".features", "FeatureEdgeDetector.feature_edges", "mismatch:feature_edges", feat_icls or icls,
                       dict(ctx, reference=base["feat"], under_deviation=got["feat"]))
         return
     rep.flag("dev%s:features_compared:%s" % (cls, el))
@@ -1208,6 +1436,246 @@ def _deviation(task, rep, M):
     rep.count("dev:faces_in_position_0_wanted:" + el, nf - 1)
     if len(rep.samples) < 1:
         rep.sample({"mesh": name, "faces": task["faces"], "element": el, "deviations": [":unit=2^%d" % e for e in task["exps"]] + [":sort=False"]})
+
+
+
+# ------------------------------------------------------------------------------------------ planar commensurable domains
+PINNED_COMM = {"c2:rect+1": 3, "c2:rect+2": 6, "c2:ell+1": 9, "c2:rectm+1": 16, "c3:hex+1": 21, "c3:hex+2": 46, "c3:rhomb+1": 3,
+               "c3:trap+1": 3, "c3:trim+1": 6, "c5:zono+2": 76}
+
+
+def _comm_family(name):
+    """all triangulations (flip graph from an ear-clipping start, exact orientation predicates in lattice coordinates) of a planar
+    polygon whose border angles are exact multiples of pi/m (mc/c18_lib.py COMM_SETS), kept planar (z = 0)"""
+    from mc import families as F
+    from mc import c18_lib as L
+    pts, opts, nb = L.comm_points(name)
+    T = F.tri_enum(opts, L.comm_start_triangulation(name))
+    assert len(T) == PINNED_COMM[name], (name, len(T))
+    return L.flat(pts), [[list(t) for t in tri] for tri in T]
+
+
+def _flat_configs(el):
+    """configurations of the planar-domain clause: order 1-6 x n_smooth {0,3} x cotangent / uniform weights (x smooth_normals on / off
+    for vertices: both initialisations of the constraints); the features switch is inert (planar), cad_correction off"""
+    return [{"el": el, "order": order, "ns": ns, "feat": True, "cot": cot, "cad": False, "sn": sn, "flat": False}
+            for order in range(1, 7) for ns in (0, 3) for cot in (True, False) for sn in ((True, False) if el == "vertices" else (True,))]
+
+
+def _worst_angle(base, other, order):
+    from mc import c18_lib as L
+    worst = 0.0
+    for k, (z, undefined) in base["inv"].items():
+        if undefined or k not in other["inv"] or other["inv"][k][1]:
+            continue
+        worst = max(worst, L.angle_err(z, other["inv"][k][0], order))
+    return worst
+
+
+def _flatdomain(task, rep, M):
+    """The connection dimension on planar domains.  Every configuration is run with the connection the field builds itself and
+    with the library's flat connection on the same planar input.  Where the exact predicate says that no chart is snapped
+    (face-based field: always; vertex-based field: every border angle is a positive multiple of 2*pi/order) the connection of the
+    planar domain IS flat, so both executions must give the same directions against the mesh's own edges
+    (C18.flat_domain.field, smoothing on or off: the smoothing steps are gauge covariant) - besides every per-execution clause,
+    among them C18.flat_domain.laplacian.  Where charts are snapped nothing is asserted; the outcome is recorded (it shows that
+    the comparison can tell the two connections apart)."""
+    pts, faces, el, name = task["pts"], [tuple(f) for f in task["faces"]], task["el"], task["mesh"]
+    ctx = {"mesh": name, "pts": pts, "faces": task["faces"], "planar": True}
+    for cfg in _flat_configs(el):
+        base = _check(rep, M, name, pts, faces, cfg, comm=task["comm"])
+        got = _check(rep, M, name, pts, faces, dict(cfg, flat=True))
+        rep.count("flat_domain:pairs")
+        if base is None or got is None or base["gated"] or got["gated"] or base["planar_flat"] is None:
+            rep.count("flat_domain:pair_not_compared")
+            continue
+        if base["planar_flat"]:
+            _compare(rep, base, got, cfg, "C18.flat_domain.field",
+                     dict(ctx, cfg=cfg, compared="the field under the connection built by the library vs under its flat connection; "
+                          "every border angle of the planar input is an exact multiple of 2*pi/order (no chart is snapped)"),
+                     icls=base["icls"] + ":planar_commensurable")
+            if not (base["skip"] or got["skip"]):
+                rep.flag("flat_domain:field_compared:%s:order%d" % (el, cfg["order"]))
+                rep.flag("flat_domain:field_compared:%s:%s" % (el, "ns0" if cfg["ns"] == 0 else "ns>0"))
+                rep.flag("flat_domain:field_compared:%s:%s" % (el, "cotan" if cfg["cot"] else "uniform"))
+                if el == "vertices":
+                    rep.flag("flat_domain:field_compared:vertices:%s" % ("guarded_init" if cfg["sn"] and cfg["order"] % 2 == 0 else "chart_init"))
+        elif not (base["skip"] or got["skip"]):
+            rep.outcome("flat_domain_snapped_charts", "differs" if _worst_angle(base, got, cfg["order"]) > TOL else "same")
+            rep.count("flat_domain:not_asserted:snapped_border_chart")
+    rep.count("flat_domain:tasks")
+    if len(rep.samples) < 1:
+        rep.sample({"mesh": name, "faces": task["faces"], "element": el, "connections": ["built by the field", "flat"]})
+
+
+# ------------------------------------------------------------------------------------------ observer calls on a computed field
+def _observer_configs(el):
+    return [{"el": el, "order": order, "ns": ns, "feat": True, "cot": True, "cad": False, "sn": True, "flat": False}
+            for order in range(1, 7) for ns in (0, 3)]
+
+
+def _observer_depth(cfg, task):
+    return task["deep"] if (cfg["order"] in (3, 4) and cfg["ns"] == 0) else task["depth"]
+
+
+def _observers(task, rep, M):
+    """Histories on ONE field object: run(), then a sequence of observer calls (OBSERVERS: export_as_mesh in both forms,
+    flag_singularities, normalize, a second run, plain reads), then the final flag_singularities() and every clause.  The
+    sequences are all words over the menu up to task['depth'] (task['deep']: depth for the configurations order 3 / 4 with
+    smoothing off).  C18.observer.state_unchanged: no observer call changes the variables, the local bases or the parallel
+    transport (reported for the first call that does, which gates the rest); C18.observer.singularities_unchanged: where the state is bitwise
+    what it was, the indices flagged after the sequence are those flagged on a field that was only run; all other clauses as C18.observer.<clause>."""
+    pts, faces, el, name = task["pts"], [tuple(f) for f in task["faces"]], task["el"], task["mesh"]
+    for cfg in _observer_configs(el):
+        if cfg["order"] not in task["orders"]:
+            continue
+        depth = _observer_depth(cfg, task)
+        ref = _check(rep, M, name, pts, faces, cfg)
+        for seq in _observer_sequences(el, depth):
+            got = _check(rep, M, name, pts, faces, cfg, observers=seq,
+                         hist={"before": [], "cls": ":after_observer_calls", "sub": "C18.observer."})
+            rep.count("observer:sequences:" + el)
+            rep.flag("observer:depth%d:%s" % (len(seq), el))
+            if ref is None or got is None or ref["gated"] or got["gated"]:
+                continue
+            if el == "faces" and ref["singuls"] is not None and got["singuls"] is not None:
+                if not got["observed_bitwise"]:
+                    # normalize() moved some value by a unit in the last place: where two branches match equally well (frames of
+                    # adjacent faces exactly 45 degrees apart on the regular tetrahedron) the matching, and with it single indices, may
+                    # legitimately come out the other way; quantum and sum are asserted by the regular clauses
+                    rep.count("observer:singularities_not_compared:state_not_bitwise_equal")
+                    continue
+                rep.evaluations += 1
+                keys = sorted(set(ref["singuls"]) | set(got["singuls"]))
+                bad = [v for v in keys if not abs(ref["singuls"].get(v, 0.0) - got["singuls"].get(v, 0.0)) < 1e-9]
+                rep.flag("observer:singularities_compared")
+                if any(x != 0 for x in ref["singuls"].values()):
+                    rep.flag("observer:singularities_compared:some_nonzero")
+                if bad:
+                    rep.violation("C18.observer.singularities_unchanged", "FrameField2DFaces.flag_singularities", "mismatch:indices",
+                                  got["icls"], {"mesh": name, "pts": pts, "faces": task["faces"], "cfg": cfg, "calls_after_run": seq,
+                                                "vertex": bad[0], "flagged_on_a_field_that_was_only_run": ref["singuls"].get(bad[0], 0.0),
+                                                "flagged_after_the_calls": got["singuls"].get(bad[0], 0.0)})
+    rep.count("observer:tasks")
+    if len(rep.samples) < 1:
+        rep.sample({"mesh": name, "faces": task["faces"], "element": el, "observer_menu": _observer_menu(el), "depth": task["depth"]})
+
+
+# ------------------------------------------------------------------------------------------ re-used worker objects
+def _fold(pts):
+    """the same vertices folded along the line y = mid (z = 1.5*|y - mid| + x/8): other feature edges on the same connectivity"""
+    ys = sorted(p[1] for p in pts)
+    mid = (ys[0] + ys[-1]) / 2.0 + 0.25
+    return [[float(p[0]), float(p[1]), 1.5 * abs(p[1] - mid) + p[0] / 8.0] for p in pts]
+
+
+def _reuse_configs(el, full):
+    return [{"el": el, "order": order, "ns": ns, "feat": True, "cot": True, "cad": False, "sn": True, "flat": False}
+            for order in range(1, 7) for ns in (0, 3) if full or ns == 0 or order in (3, 4)]
+
+
+REUSE_USES = ["features", "features+connection"]
+
+
+def _reuse_histories(n_others):
+    """what happened to the FeatureEdgeDetector object before it is handed to the field on the mesh B as `custom_features`
+    (always run on B last, unless the history ends with a field on B that used it):
+    run on another surface A first; run on A and used by a field on A first; run on B twice; run on B and used by a field of
+    the other element kind on the same mesh object B (not run again)"""
+    out = []
+    for k in range(n_others):
+        out.append(["run:%d" % k, "run:B"])
+        out.append(["run:%d" % k, "field:%d" % k, "run:B"])
+    out.append(["run:B", "run:B"])
+    out.append(["run:B", "field:B"])
+    return out
+
+
+def _reuse(task, rep, M):
+    """Worker objects with a history.  A FeatureEdgeDetector is a public worker ('can be given as a parameter in ... frame field
+    algorithms'); SurfaceFrameField documents `custom_features` / `custom_connection`.  For every history of _reuse_histories the
+    detector is handed to the field on B (alone, or together with a connection built from it): every clause (C18.reuse.<clause>)
+    and C18.reuse.features / .constraints / .field: the same feature edges, constraints and directions as with a detector that
+    was created for B and run once."""
+    from mc import families as F
+    from mc import c18_lib as L
+    pts, faces, el, name = task["pts"], [tuple(f) for f in task["faces"]], task["el"], task["mesh"]
+    others = task["others"]
+    P = M.processing
+    Conn = P.SurfaceConnectionVertices if el == "vertices" else P.SurfaceConnectionFaces
+    geoB = L.Geo(pts, faces)
+    sharpB = {e for e, d in geoB.dihedral_dots().items() if d < 0.5} | set(geoB.border_edges)
+    for k, (on, op, of) in enumerate(others):
+        g = L.Geo(op, [tuple(f) for f in of])
+        sharp = {e for e, d in g.dihedral_dots().items() if d < 0.5 - 1e-6} | set(g.border_edges)
+        if sharp - sharpB:
+            rep.flag("reuse:other_surface_has_feature_edges_B_has_not" + (":same_connectivity" if [tuple(f) for f in of] == faces else ""))
+        if len(g.E) > len(geoB.E):
+            rep.flag("reuse:other_surface_has_more_edges")
+    other_el = "faces" if el == "vertices" else "vertices"
+
+    def detector(cfg):
+        return P.FeatureEdgeDetector(only_border=False, corner_order=(cfg["order"] if el == "vertices" else 4),
+                                     compute_feature_graph=bool(task["graph"]), verbose=False)
+
+    def extra(det, mesh, use):
+        e = {"custom_features": det}
+        if use == "features+connection":
+            e["custom_connection"] = Conn(mesh, det)
+        return e
+
+    for cfg in _reuse_configs(el, task["full"]):
+        for use in REUSE_USES:
+            meshB = F.build_surface(pts, faces)
+            det = detector(cfg)
+            o = call(det.run, meshB)
+            ref = _check(rep, M, name, pts, faces, cfg, mesh=meshB, extra=extra(det, meshB, use)) if o.ok else None
+            if ref is not None and not ref["gated"]:
+                rep.flag("reuse:reference:" + use)
+            for hist in _reuse_histories(len(others)):
+                meshB = F.build_surface(pts, faces)
+                det = detector(cfg)
+                failed = None
+                for step in hist:
+                    what, where = step.split(":")
+                    if where == "B":
+                        m, mp, mf = meshB, pts, faces
+                    else:
+                        on, mp, mf = others[int(where)]
+                        mf = [tuple(f) for f in mf]
+                        m = F.build_surface(mp, mf) if what == "run" else m_prev
+                    if what == "run":
+                        o = call(det.run, m)
+                        rep.transitions += 1
+                        m_prev = m
+                        if not o.ok:
+                            failed = (step, o)
+                            break
+                    else:
+                        c2 = dict(cfg, ns=0) if where != "B" else dict(cfg, ns=0, el=other_el)
+                        ex = {"custom_features": det}
+                        r2 = _execute(M, mp, mf, c2, True, mesh=m, extra=ex)
+                        rep.transitions += 3
+                        rep.outcome("reuse_intermediate_field", "ok" if r2.ok else "raises")
+                rep.count("reuse:histories:" + el)
+                rep.case(("reuse", name, sorted(cfg.items()), use, hist))
+                rep.flag("reuse:history:" + "+".join(s.split(":")[0] + ":" + ("B" if s.endswith(":B") else "A") for s in hist))
+                icls = "%s:bordered:reused_detector" % el
+                hctx = {"mesh": name, "pts": pts, "faces": task["faces"], "cfg": cfg, "handed_to_the_field": use,
+                        "history_of_the_detector_object": [s if s.endswith(":B") else s.split(":")[0] + ":" + others[int(s.split(":")[1])][0] for s in hist],
+                        "other_surfaces": {on: {"pts": op, "faces": of} for on, op, of in others},
+                        "detector": "FeatureEdgeDetector(only_border=False, corner_order=%d, compute_feature_graph=%r, verbose=False)" % (
+                            cfg["order"] if el == "vertices" else 4, bool(task["graph"]))}
+                if failed is not None:
+                    rep.violation("C18.reuse.run", "FeatureEdgeDetector.run", exc_kind(failed[1]), icls, dict(hctx, step=failed[0], msg=failed[1].msg[:300]))
+                    continue
+                got = _check(rep, M, name, pts, faces, cfg, mesh=meshB, extra=extra(det, meshB, use),
+                             hist={"before": [], "cls": ":reused_detector", "sub": "C18.reuse."})
+                _same(rep, ref, got, cfg, "C18.reuse", hctx, ":reused_detector", True, feat_icls=icls)
+    rep.count("reuse:tasks")
+    if len(rep.samples) < 1:
+        rep.sample({"mesh": name, "faces": task["faces"], "element": el, "other_surfaces": [o[0] for o in others],
+                    "histories": _reuse_histories(len(others))})
 
 
 # ------------------------------------------------------------------------------------------ documented defaults / call forms
@@ -1661,6 +2129,12 @@ def run_task(task, rep: Report):
             _deviation(task, rep, M)
         elif task["kind"] == "defaults":
             _defaults(task, rep, M)
+        elif task["kind"] == "flatdomain":
+            _flatdomain(task, rep, M)
+        elif task["kind"] == "observers":
+            _observers(task, rep, M)
+        elif task["kind"] == "reuse":
+            _reuse(task, rep, M)
         else:
             _listing(task, rep, M)
     finally:
@@ -1741,6 +2215,47 @@ def finish(tier, rep: Report):
         if not want or rep.counters.get("dev:sort=False:face_in_position_0:" + el, 0) != want:
             fails.append("deviation dimension: not every face was listed in position 0 (%s)" % el)
     fails += _dflt_finish(tier, rep)
+    # ---- planar commensurable domains (connection built by the field vs flat connection)
+    need = ["flat_domain:laplacian:vertices", "flat_domain:laplacian:faces"]
+    need += ["flat_domain:laplacian:border_charts:order%d" % o for o in (2, 3, 4, 5, 6)]
+    need += ["flat_domain:unsnapped_border_vertex:order%d" % o for o in (2, 3, 4, 5, 6)]
+    need += ["flat_domain:field_compared:vertices:order%d" % o for o in (3, 4, 5, 6)]      # orders 1, 2: no polygon has only such angles
+    need += ["flat_domain:field_compared:faces:order%d" % o for o in range(1, 7)]
+    need += ["flat_domain:field_compared:%s:%s" % (el, w) for el in ("vertices", "faces") for w in ("ns0", "ns>0", "cotan", "uniform")]
+    need += ["flat_domain:field_compared:vertices:guarded_init", "flat_domain:field_compared:vertices:chart_init"]
+    # ---- observer calls
+    need += ["observer:%s:%s" % (o, el) for el in ("vertices", "faces") for o in _observer_menu(el)]
+    need += ["observer:depth%d:%s" % (d, el) for el in ("vertices", "faces") for d in (1, 2)]
+    need += ["observer:singularities_compared:some_nonzero"]
+    # ---- re-used detector objects
+    need += ["reuse:reference:" + u for u in REUSE_USES]
+    need += ["reuse:history:" + h for h in ("run:A+run:B", "run:A+field:A+run:B", "run:B+run:B", "run:B+field:B")]
+    need += ["reuse:other_surface_has_feature_edges_B_has_not:same_connectivity", "reuse:other_surface_has_feature_edges_B_has_not",
+             "reuse:other_surface_has_more_edges"]
+    need += ["dev:reused_detector:%s_compared:%s" % (w, el) for w in ("features", "constraints", "field") for el in ("vertices", "faces")]
+    for f in need:
+        if f not in rep.flags:
+            fails.append("coverage flag missing: " + f)
+    for c in ("flat_domain:tasks", "observer:tasks", "reuse:tasks"):
+        if not rep.counters.get(c):
+            fails.append("no task of the dimension was run: " + c)
+    if "differs" not in rep.outcomes.get("flat_domain_snapped_charts", ()):
+        fails.append("planar domains: the two connections never gave different fields where charts are snapped (the comparison could not tell them apart)")
+    if "scalar_up_to_gauge" not in rep.outcomes.get("flat_domain_laplacian", ()):
+        fails.append("planar domains: the Laplacian clause never held")
+    if "state_unchanged" not in rep.outcomes.get("observer_calls", ()):
+        fails.append("observer calls: no sequence ever left the field unchanged")
+    if "ok" not in rep.outcomes.get("reuse_intermediate_field", ()):
+        fails.append("re-used detector: no intermediate field using the detector was ever computed")
+    if rep.counters.get("observer:tasks"):
+        obs_tasks = [t for t in tasks(tier) if t["kind"] == "observers"]
+        if rep.counters.get("observer:tasks") == len(obs_tasks):        # (a run restricted by --only is judged by the flags above)
+            for el in ("vertices", "faces"):
+                want = sum(len(_observer_sequences(el, _observer_depth(c, t))) for t in obs_tasks if t["el"] == el
+                           for c in _observer_configs(el) if c["order"] in t["orders"])
+                if rep.counters.get("observer:sequences:" + el, 0) != want:
+                    fails.append("observer calls: not every word over the menu was run (%s: %d of %d)" % (
+                        el, rep.counters.get("observer:sequences:" + el, 0), want))
     return fails
 
 
